@@ -661,19 +661,26 @@ class Quadrature:
             KK.append(np.full(len(pts), ki))
         self.C, self.H, self.M = np.concatenate(C), np.concatenate(H), np.concatenate(M)
         self.inside, self.boundary, self.margin = np.concatenate(IN), np.concatenate(BD), np.concatenate(MG)
+        self.R = np.linalg.norm(self.H, axis=1) + shape.band
         self.carrier_index = np.concatenate(KK)
         self.mu_lo = float(self.M[self.inside].sum())
         self.mu_hi = float(self.M[self.inside | self.boundary].sum())
         self.grid = grid
 
-    def cells(self):
-        keep = self.inside | self.boundary
+    def cells(self, depth=0.0):
+        """(lo, hi) per cell of the measure of the region.  With depth D > 0: lo = measure of the
+        part of the region deeper than D inside it, hi = measure of the D-neighbourhood of the
+        region (features thinner than D, which a lattice of box radius D cannot resolve, then
+        count to neither bound)."""
+        rr = self.R + depth
+        deep = self.margin < -rr
+        near = self.margin <= rr
         lo, hi, _ = accumulate(
             self.grid,
-            self.C[keep],
-            self.H[keep],
-            np.where(self.inside[keep], self.M[keep], 0.0),
-            self.M[keep],
+            self.C[near],
+            self.H[near],
+            np.where(deep[near], self.M[near], 0.0),
+            self.M[near],
         )
         return lo, hi
 
